@@ -81,22 +81,22 @@ type Run struct {
 	Env  Env
 	Prop string
 
-	mu        sync.Mutex
-	out       *os.File
-	cur       *os.File
-	counters  map[string]int64
-	fps       map[string]bool // fingerprint -> nontrivial
-	samples   []any
-	maxSample int
-	cases     int
-	held      int
-	violated  int
-	inconcl   int
+	mu         sync.Mutex
+	out        *os.File
+	cur        *os.File
+	counters   map[string]int64
+	fps        map[string]bool // fingerprint -> nontrivial
+	samples    []any
+	maxSample  int
+	cases      int
+	held       int
+	violated   int
+	inconcl    int
 	inconclWhy map[string]int
-	lastFlush time.Time
-	notes     map[string]string
-	t0        time.Time
-	complete  bool
+	lastFlush  time.Time
+	notes      map[string]string
+	t0         time.Time
+	complete   bool
 }
 
 // Finish marks the case loop as having run to its end (call last in TestCheck).
